@@ -115,6 +115,7 @@ type Engine struct {
 	pkgList    []*pkgT
 	aliasNotes []string
 	baseFields map[string]map[string]bool
+	baseLocals map[string][]declVar
 	newFieldHeaps map[string]bool
 }
 
